@@ -324,6 +324,8 @@ class Arr:
     def __mul__(self, o): return self._bin(o, operator.mul)
     def __rmul__(self, o): return self._bin(o, operator.mul, True)
     def __truediv__(self, o): return self._bin(o, operator.truediv)
+    def __pow__(self, o): return self._bin(o, operator.pow)
+    def __abs__(self): return Arr([abs(v) for v in self.data])
     def __and__(self, o): return self._bin(o, operator.and_)
     def __rand__(self, o): return self._bin(o, operator.and_, True)
     def __or__(self, o): return self._bin(o, operator.or_)
@@ -610,6 +612,96 @@ class NPModel:
     @staticmethod
     def isscalar(a):
         return isinstance(a, (int, float, bool, str))
+
+    @staticmethod
+    def zeros_like(a, dtype=None, **k):
+        return Arr([0] * len(_seq(a)), dtype)
+
+    @staticmethod
+    def ones_like(a, dtype=None, **k):
+        return Arr([1] * len(_seq(a)), dtype)
+
+    @staticmethod
+    def abs(a):
+        if isinstance(a, (Arr, list, tuple)):
+            return Arr([abs(v) for v in _seq(a)])
+        return abs(a)
+
+    absolute = abs
+
+    @staticmethod
+    def diff(a, *r, **k):
+        if r or k:
+            raise AnalysisError("np.diff with options not modelled")
+        d = _seq(a)
+        return Arr([y - x for x, y in zip(d[:-1], d[1:])])
+
+    @staticmethod
+    def average(a, *r, **k):
+        if r or k:
+            raise AnalysisError("np.average with options not modelled")
+        d = _seq(a)
+        if not d:
+            raise ModelFault("ZeroDivisionError", "average of empty array")
+        return sum(d) / len(d)
+
+    mean = average
+
+    @staticmethod
+    def arctan2(y, x):
+        if isinstance(y, (Arr, list, tuple)):
+            return Arr([math.atan2(a, b) for a, b in zip(_seq(y), _seq(x))])
+        return math.atan2(y, x)
+
+    @staticmethod
+    def unwrap(p, *r, **k):
+        if r or k:
+            raise AnalysisError("np.unwrap with options not modelled")
+        d = _seq(p)
+        out = list(d[:1])
+        for v in d[1:]:
+            delta = v - out[-1]
+            delta = (delta + math.pi) % (2 * math.pi) - math.pi
+            if delta == -math.pi and v - out[-1] > 0:
+                delta = math.pi
+            out.append(out[-1] + delta)
+        return Arr(out)
+
+    @staticmethod
+    def resize(a, new_shape):
+        d = _seq(a)
+        if isinstance(new_shape, tuple):
+            if len(new_shape) != 1:
+                raise AnalysisError("np.resize to n-d not modelled")
+            new_shape = new_shape[0]
+        if not d:
+            return Arr([0] * new_shape)
+        return Arr([d[i % len(d)] for i in range(new_shape)])
+
+    @staticmethod
+    def sign(a):
+        f = (lambda v: (v > 0) - (v < 0))
+        if isinstance(a, (Arr, list, tuple)):
+            return Arr([f(v) for v in _seq(a)])
+        return f(a)
+
+    @staticmethod
+    def roll(a, shift, *r, **k):
+        d = _seq(a)
+        if not d:
+            return Arr([])
+        s_ = -shift % len(d)
+        return Arr(d[s_:] + d[:s_])
+
+    @staticmethod
+    def sqrt(a):
+        if isinstance(a, (Arr, list, tuple)):
+            return Arr([math.sqrt(v) for v in _seq(a)])
+        return math.sqrt(a)
+
+    @staticmethod
+    def cross(a, b):
+        raise AnalysisError("np.cross not modelled")
 
 
 class _Namespace:
